@@ -876,6 +876,11 @@ theorem deref_ref_exact (q : Bool) (c : Cls) (n outer rn : String) (t a : A)
     exact ⟨sv, p, h.symm, hcons, attr_kind_exact q c n t.value sv p hcons⟩
   · simp at h
 
+/-- Generated obligation (observed on every run): all four list classes keep a reference handed to the constructor
+    AND to `maybe` (the optional attributes of the operator constructors) — `maybe` is then `constructRef` too. -/
+theorem generated_list_refs_kept :
+    (∀ r ∈ Generated.AttrSites.keepsRef, r.2.2 = true) ∧ Generated.AttrSites.keepsRef.length ≥ 8 := by decide
+
 /-- Non-vacuity: a chain of two references to an INTS attribute; a FLOAT reference to it is refused. -/
 example : (show Except Err _ from do
     let r ← mk true .int64s "axes" (.seq [.int 1, .int 2])
